@@ -24,7 +24,7 @@ type Case struct {
 
 func gen(t *rapid.T) Case {
 	var c Case
-	c.Dst = projkit.GenDef(t, projkit.Opts{SmallShift: true, WithAxis: true})
+	c.Dst = projkit.GenDef(t, projkit.Opts{SmallShift: true, WithAxis: true, WithRA: true})
 	c.SrcSame = rapid.Bool().Draw(t, "srcsame")
 	c.SrcNoDatum = rapid.IntRange(0, 2).Draw(t, "srcnodatum") == 1
 	c.Lon, c.Lat = projkit.GenPosition(t, c.Dst)
@@ -33,6 +33,11 @@ func gen(t *rapid.T) Case {
 		// drawn here (100 m, 1 arc second) that is up to 2 mm on the ground, and 2 mm are 1e-6 degrees of longitude at
 		// latitude 89 - three times less at 86
 		c.Lat = math.Copysign(86, c.Lat)
+	}
+	if c.Dst.HasShift() && c.Dst.Proj == "merc" && math.Abs(c.Lat) > 75 {
+		// the same 2 mm, stretched by the Mercator scale (11 at latitude 85, times k_0), are more than the 2 cm allowed
+		// for the projected coordinates of such pairs
+		c.Lat = math.Copysign(75, c.Lat)
 	}
 	switch c.Dst.Proj {
 	case "lcc", "aea", "eqdc":
@@ -104,6 +109,9 @@ func run(c Case) (v vkit.Verdict) {
 		(c.Dst.DatumKind == "name" && (c.Dst.Datum == "WGS84" || c.Dst.Datum == "nad83"))
 	if c.Dst.Proj == "krovak" && c.Dst.DatumKind != "" {
 		wgsOK = false // krovak always works on the Bessel ellipsoid
+	}
+	if c.Dst.RA && c.Dst.DatumKind != "" {
+		wgsOK = false // +R_A puts the datum on a sphere 7 to 14 km off the WGS84 ellipsoid: the same loss of height
 	}
 	c.SrcSame = c.SrcSame || !wgsOK
 	if c.SrcSame {
